@@ -9,7 +9,7 @@ import sys, os, json, subprocess, shutil, glob
 # the suite is run once more)
 os.environ.setdefault("BASELINE_TIMEOUT", "180")
 V = os.path.dirname(os.path.dirname(os.path.abspath(__file__)))
-seeds = sys.argv[1:] or sorted(glob.glob(os.path.join(V, "seeded", "C*-*")))
+seeds = [a for a in sys.argv[1:] if not a.startswith("--")] or sorted(glob.glob(os.path.join(V, "seeded", "C*-*")))
 for seed in seeds:
     seed = os.path.abspath(seed)
     name = os.path.basename(seed)
